@@ -80,7 +80,164 @@ theorem oto_copy_same_items (s : OTO α) (w : s.WF) :
 example : otoRun ([] : List (OTO Nat))
     [.new (.pairs [(1, 3), (2, 3), (4, 5)]), .op 0 true (.setitem 5 2), .copy 0 true,
      .updateFrom 1 false (.reg 0 false [(7, 7)]), .op 0 false .popitem]
-    = some [⟨[], []⟩, ⟨[(2, 5), (7, 7)], [(5, 2), (7, 7)]⟩] := by decide
+    = some [⟨[], []⟩, ⟨[(5, 2), (2, 5), (7, 7)], [(2, 5), (5, 2), (7, 7)]⟩] := by decide
 example : (OTO.setitem (⟨[(1, 2), (3, 4)], [(2, 1), (4, 3)]⟩ : OTO Nat) 1 4) = ⟨[(1, 4)], [(4, 1)]⟩ := by decide
+
+/-! ## ManyToMany
+
+A history: constructors from pairs / mapping / another instance (either side), and
+`add`, `remove`, `__setitem__`, `__delitem__`, `update` (pairs, mapping, or another
+ManyToMany - also the instance itself or its own inverse), `replace`, through either side. -/
+
+/-- MAIN: after any history every instance satisfies the invariant (both dicts have unique keys,
+    no empty and no duplicated set element, `v ∈ data[k] ↔ k ∈ inv[v]`) -/
+theorem m2m_invariant (cmds : List (M2MCmd α)) (regs : List (M2M α))
+    (h : m2mRun [] cmds = some regs) : ∀ s ∈ regs, s.WF :=
+  m2mRun_wf cmds (fun _ hs => by simp at hs) h
+
+theorem mem_iteritems {d : Dict α (List α)} (g : GoodDict d) (k v : α) :
+    (k, v) ∈ iteritems d ↔ v ∈ getSet k d := by
+  rw [← g.exists_iff]
+  simp only [iteritems, List.mem_flatMap, List.mem_map, Prod.mk.injEq]
+  constructor
+  · rintro ⟨p, hp, x, hx, h1, h2⟩; exact ⟨p, hp, h1, h2 ▸ hx⟩
+  · rintro ⟨p, hp, h1, h2⟩; exact ⟨p, hp, v, h2, h1, rfl⟩
+
+/-- … hence `iteritems()` of the two sides yield exactly the same pairs, transposed -/
+theorem m2m_same_pairs_transposed (cmds : List (M2MCmd α)) (regs : List (M2M α))
+    (h : m2mRun [] cmds = some regs) (s : M2M α) (hs : s ∈ regs) (k v : α) :
+    (k, v) ∈ iteritems s.data ↔ (v, k) ∈ iteritems s.inv := by
+  have w := m2m_invariant cmds regs h s hs
+  rw [mem_iteritems w.gd, mem_iteritems w.gi]
+  exact w.transpose k v
+
+/-- … with no empty entry and no key listed twice, on either side -/
+theorem m2m_no_empty_entries (cmds : List (M2MCmd α)) (regs : List (M2M α))
+    (h : m2mRun [] cmds = some regs) (s : M2M α) (hs : s ∈ regs) :
+    (∀ p ∈ s.data, p.2 ≠ []) ∧ (∀ p ∈ s.inv, p.2 ≠ []) ∧ (keys s.data).Nodup ∧ (keys s.inv).Nodup := by
+  have w := m2m_invariant cmds regs h s hs
+  exact ⟨w.gd.ne_of_mem, w.gi.ne_of_mem, w.gd.nk, w.gi.nk⟩
+
+/-- `x.inv.inv is x` -/
+theorem m2m_inv_inv (s : M2M α) (op : M2MOp α) :
+    s.flip.flip = s ∧ ((s.flip.stepSide true op).1.flip, (s.flip.stepSide true op).2) = s.stepSide false op :=
+  ⟨rfl, rfl⟩
+
+/-- a mutator (including `update(other)`) leaves every other instance - in particular the one it
+    was built or updated from - exactly as it was -/
+theorem m2m_isolation (regs regs' : List (M2M α)) (c : M2MCmd α) (ret : Ret α)
+    (hc : m2mCmd regs c = some (regs', ret)) (j : Nat) (hj : j < regs.length)
+    (ht : ∀ r side op, c = .op r side op → j ≠ r)
+    (ht2 : ∀ r side r2 side2, c = .updateFrom r side r2 side2 → j ≠ r) :
+    regs'[j]? = regs[j]? :=
+  m2mCmd_isolated hc j hj ht ht2
+
+/-! what each mutator does to the relation (forward side; the inverse side follows by the invariant) -/
+
+theorem m2m_add_spec (s : M2M α) (k v a x : α) :
+    x ∈ getSet a (s.add k v).data ↔ x ∈ getSet a s.data ∨ (a = k ∧ x = v) :=
+  mem_getSet_addTo s.data k v a x
+
+theorem m2m_remove_spec (s : M2M α) (k v a x : α) :
+    x ∈ getSet a (s.remove k v).1.data ↔ x ∈ getSet a s.data ∧ ¬ (a = k ∧ x = v) := by
+  unfold M2M.remove
+  split
+  · exact mem_getSet_removeFrom s.data k v a x
+  · next hn =>
+    simp only
+    constructor
+    · intro hx
+      refine ⟨hx, ?_⟩
+      rintro ⟨e1, e2⟩
+      subst e1; subst e2; exact hn hx
+    · exact fun hx => hx.1
+
+theorem m2m_setitem_spec (s : M2M α) (w : s.WF) (k : α) (vals : List α) (a x : α) :
+    x ∈ getSet a (s.setitem k vals).data ↔ if a = k then x ∈ vals else x ∈ getSet a s.data :=
+  M2M.setitem_data w k vals a x
+
+theorem m2m_delitem_spec (s : M2M α) (k a x : α) (hk : hasKey k s.data = true) :
+    x ∈ getSet a (s.delitem k).1.data ↔ a ≠ k ∧ x ∈ getSet a s.data := by
+  unfold M2M.delitem
+  rw [if_pos hk]
+  show x ∈ getSet a (erase k s.data) ↔ _
+  rw [getSet_erase]; split <;> simp_all
+
+/-- `replace(k, nk)` renames `k` to `nk` in every pair, merging into pairs `nk` already has (the fixed code) -/
+theorem m2m_replace_spec (s : M2M α) (w : s.WF) (k nk a x : α) :
+    x ∈ getSet a (s.replace k nk).data ↔ (a ≠ k ∧ x ∈ getSet a s.data) ∨ (a = nk ∧ x ∈ getSet k s.data) :=
+  M2M.replace_data w k nk a x
+
+/-- `update(other)`: the union of the two relations -/
+theorem m2m_update_spec (s o : M2M α) (wo : o.WF) (a x : α) :
+    x ∈ getSet a (s.updateFrom o).data ↔ x ∈ getSet a s.data ∨ x ∈ getSet a o.data :=
+  M2M.updateFrom_data wo a x
+
+/-! non-vacuity: replace onto an existing key, update from the own inverse, then mutate the source -/
+example : m2mRun ([] : List (M2M Nat))
+    [.new [(1, 5), (2, 5), (2, 6)], .op 0 false (.replace 1 2), .newFrom 0 true,
+     .updateFrom 1 false 1 true, .op 0 true (.delitem 5)]
+    = some [⟨[(2, [6])], [(6, [2])]⟩,
+            ⟨[(5, [2]), (6, [2]), (2, [5, 6])], [(2, [5, 6]), (5, [2]), (6, [2])]⟩] := by decide
+
+/-! ## FrozenDict
+
+`Generated.frozenBlocked` / `Generated.frozenRaises` are regenerated from the class body on every
+run; the model blocks a mutator iff its name is in that list, so the next two theorems re-check
+the source's table. -/
+
+/-- every mutating `dict` method is bound to the raiser in the class body -/
+theorem fd_all_mutators_blocked : ∀ n ∈ dictMutators, n ∈ Generated.frozenBlocked := by decide
+
+/-- every mutating dict operation raises TypeError and leaves the FrozenDict unchanged -/
+theorem fd_mutators_raise (s : FD) (m : Mut) : s.mutate m = (s, .err .TypeError) :=
+  FD.mutate_blocked s m
+
+/-- after any history of mutator attempts and `hash()` calls the items are what they were … -/
+theorem fd_history_unchanged (ps : List (Nat × FVal)) (ops : List FdOp) :
+    ((FD.ofPairs ps).run ops).items = (FD.ofPairs ps).items :=
+  FD.run_items _ ops
+
+/-- … and every `hash()` call, first or cached, yields the hash of those items (a FrozenHashError
+    is replayed just as consistently: `none`) -/
+theorem fd_hash_stable (ps : List (Nat × FVal)) (ops : List FdOp) :
+    ((FD.ofPairs ps).run ops).hash.2 = hashOf (FD.ofPairs ps).items := by
+  rw [FD.hash_of_cacheOk _ (FD.run_cacheOk _ ops (Or.inl rfl)), FD.run_items]
+
+/-- equal FrozenDicts have equal hashes regardless of insertion order (`dictEq` is Python's
+    `dict.__eq__`; the hash is a function of the canonical item set) -/
+theorem fd_hash_order_independent (ps qs : List (Nat × FVal))
+    (h : dictEq (FD.ofPairs ps).items (FD.ofPairs qs).items = true) :
+    (FD.ofPairs ps).hash.2 = (FD.ofPairs qs).hash.2 :=
+  hashOf_eq_of_dictEq _ _ (FD.ofPairs_nodup ps) (FD.ofPairs_nodup qs) h
+
+/-- hashing fails (FrozenHashError) exactly when some value is unhashable -/
+theorem fd_unhashable_iff (ps : List (Nat × FVal)) :
+    (FD.ofPairs ps).hash.2 = none ↔ ∃ p ∈ (FD.ofPairs ps).items, p.2.hashable = false :=
+  hashOf_none_iff _
+
+/-- pickle / deepcopy (`type(self)(dict(self))`) and `copy()` return an equal value with an equal
+    hash; `updated()` builds a new object (the original is not an argument of any later change) -/
+theorem fd_rebuild_equal (ps : List (Nat × FVal)) :
+    (FD.ofPairs ps).rebuild.items = (FD.ofPairs ps).items ∧
+    dictEq (FD.ofPairs ps).copyItems (FD.ofPairs ps).items = true ∧
+    (FD.ofPairs ps).rebuild.hash.2 = (FD.ofPairs ps).hash.2 := by
+  have hn := FD.ofPairs_nodup ps
+  have hr := FD.rebuild_items _ hn
+  refine ⟨hr, dictEq_refl _ hn, ?_⟩
+  show hashOf (FD.ofPairs ps).rebuild.items = hashOf (FD.ofPairs ps).items
+  rw [hr]
+
+/-- `updated(pairs)`: a key of `pairs` gets its last value there, every other key keeps its value -/
+theorem fd_updated_spec (s : FD) (ps : List (Nat × FVal)) (k : Nat) (v : FVal) (a : Nat) :
+    lookup a (s.updated (ps ++ [(k, v)])).items = if a = k then some v else lookup a (s.updated ps).items := by
+  simp only [FD.updated, putAll, List.foldl_append, List.foldl_cons, List.foldl_nil]
+  exact lookup_put a k v _
+
+/-! non-vacuity -/
+example : dictEq (FD.ofPairs [(1, .h 3), (2, .h 0), (1, .h 4)]).items (FD.ofPairs [(2, .h 0), (1, .h 4)]).items = true := by decide
+example : (FD.ofPairs [(1, .h 3), (2, .h 0), (1, .h 4)]).hash.2 = some [(1, 4), (2, 0)] := by decide
+example : (FD.ofPairs [(1, .h 3), (2, .u 0)]).hash.2 = none := by decide
+example : ((FD.ofPairs [(1, .h 3)]).run [.hash, .mutate .clear, .mutate (.setitem 2 (.h 2)), .hash]).items = [(1, .h 3)] := by decide
 
 end C17
